@@ -5,7 +5,7 @@
    message). pdu_unpack fuel bs returns the decoded PDU and the number of loop iterations (ticks). *)
 From V Require Import Prelude.Base Prelude.PyInt Prelude.PySlice Prelude.PyStr gen.K_rpc gen.C_rpc.
 From V Require Import Model.Pdu Model.Request Model.RpcLoop Model.Bind Model.RpcDispatch Model.Epm.
-From V Require Import Proofs.RpcKernels Proofs.RpcPdu Proofs.RpcBind Proofs.RpcRoundtrip Proofs.RpcEpm Proofs.RpcExamples.
+From V Require Import Proofs.RpcKernels Proofs.RpcPdu Proofs.RpcBind Proofs.RpcRoundtrip Proofs.RpcEpm Proofs.RpcExamples Proofs.RpcTotal.
 
 (* ---- padding kernels (regenerated from _bind.py / _epm.py) ---- *)
 Theorem C12_pad_bindack : forall n, k_bindack_pack_pad n = k_bindack_unpack_pad n /\
@@ -112,6 +112,22 @@ Theorem C12_rt_ept_map_result : forall m fuel, wf_ept_map_result m = true -> (le
   /\ ept_map_result_pack (ept_map_result_norm m) = ept_map_result_pack m.
 Proof. exact (fun m fuel H Hf => conj (ept_map_result_rt m fuel H Hf) (ept_map_result_pack_norm m)). Qed.
 Print Assumptions C12_rt_ept_map_result.
+
+(* ---- termination / cost on arbitrary octets. Full statement (C12_total_M for every decoder M: with fuel = length + 1
+        M.unpack never returns OutOfFuel and its ticks are <= length + 300) is proved below for the floor loop and for
+        EptMapResult.unpack only; the other decoders are listed as partial in the check module and covered by the
+        rpc.arbitrary.* correspondence units under the interpreter step budget. ---- *)
+Theorem C12_total_floors_partial : forall fuel n view, len view < Z.of_nat fuel ->
+  floors_unpack fuel n view <> Raise OutOfFuel /\
+  forall s t, floors_unpack fuel n view = Ok (s, t) -> 0 <= t <= len view - len (fst s) /\ len (fst s) <= len view.
+Proof. exact floors_unpack_total. Qed.
+Print Assumptions C12_total_floors_partial.
+
+Theorem C12_total_ept_map_result_partial : forall bs fuel, len bs < Z.of_nat fuel ->
+  ept_map_result_unpack fuel bs <> Raise OutOfFuel /\
+  forall m t, ept_map_result_unpack fuel bs = Ok (m, t) -> 0 <= t <= len bs /\ 8 * len (er_towers m) <= len bs.
+Proof. exact ept_map_result_unpack_total. Qed.
+Print Assumptions C12_total_ept_map_result_partial.
 
 (* ---- the hypotheses are satisfiable by non-trivial messages ---- *)
 Example C12_example_bind_ack : exists m packed bsa,
